@@ -826,7 +826,7 @@ def check(ctx):
     if thorough:
         missing |= {"hwmon/label:unreadable", "count/sysconf:False"} - seen_inputs
     if missing:
-        raise core.Machinery("vacuity: input classes never enumerated: %s" % sorted(missing))
+        core.vacuity("input classes never enumerated: %s" % sorted(missing))
     seen_results = set()
     every = 2 if thorough else 5          # share of the enumerated cases TLC judges a second time
     main = [c + (n % every == 0,) for n, c in enumerate(main)]
@@ -850,7 +850,7 @@ def check(ctx):
         seen_results |= result_classes(l["inp"], l["got"])
     missing = REQUIRED_RESULT - seen_results
     if missing and not ctx.violations:
-        raise core.Machinery("vacuity: result classes never produced by the real code: %s" % sorted(missing))
+        core.vacuity("result classes never produced by the real code: %s" % sorted(missing))
     if missing:     # disagreements explain the gap and are reported instead
         ctx.notes.append("result classes never produced by the real code: %s" % sorted(missing))
     ctx.cov["input_classes"] = len(seen_inputs)
